@@ -85,27 +85,29 @@ Fits(S, r) == \A q \in S : Len(r) + Len(q) <= MaxDepth
 Set(i, t, s, a, o) == /\ trie' = [trie EXCEPT ![i] = t]
                       /\ abs' = [abs EXCEPT ![i] = s]
                       /\ act' = a /\ out' = o
-Bool2(b) == IF b THEN 1 ELSE 0
+\* `out` has one shape in every state (TLC compares states): [b: 0/1 return flag, none, s: subtree answer]
+Bool2(b) == [b |-> IF b THEN 1 ELSE 0, none |-> FALSE, s |-> {}]
+NoOut == Bool2(FALSE)
 Add(i, p) == Set(i, TAdd(trie[i], p), abs[i] \cup {p}, <<"Add", i, p>>, Bool2(p \notin abs[i]))
 Remove(i, p) == Set(i, TRemove(trie[i], p), abs[i] \ {p}, <<"Remove", i, p>>, Bool2(p \in abs[i]))
-Update(i, j) == Set(i, TUpdate(trie[i], trie[j]), abs[i] \cup abs[j], <<"Update", i, j>>, 0)
-DiffUpdate(i, j) == Set(i, TDiff(trie[i], trie[j]), abs[i] \ abs[j], <<"DiffUpdate", i, j>>, 0)
-InterUpdate(i, j) == Set(i, TInter(trie[i], trie[j]), abs[i] \cap abs[j], <<"InterUpdate", i, j>>, 0)
-Union(i, j, k) == Set(k, TUpdate(trie[i], trie[j]), abs[i] \cup abs[j], <<"Union", i, j, k>>, 0)
-Plus(i, j, k) == Set(k, TUpdate(trie[i], trie[j]), abs[i] \cup abs[j], <<"Plus", i, j, k>>, 0)
-Difference(i, j, k) == Set(k, TDiff(trie[i], trie[j]), abs[i] \ abs[j], <<"Difference", i, j, k>>, 0)
-Intersection(i, j, k) == Set(k, TInter(trie[i], trie[j]), abs[i] \cap abs[j], <<"Intersection", i, j, k>>, 0)
-Copy(i, k) == Set(k, trie[i], abs[i], <<"Copy", i, k>>, 0)
-Rebase(i, r) == Fits(abs[i], r) /\ Set(i, TRebase(trie[i], r), SRebase(abs[i], r), <<"Rebase", i, r>>, 0)
-KeyPathPlus(r, i, k) == Fits(abs[i], r) /\ Set(k, TRebase(trie[i], r), SRebase(abs[i], r), <<"KeyPathPlus", r, i, k>>, 0)
-Clear(i) == Set(i, EmptyT, {}, <<"Clear", i>>, 0)
+Update(i, j) == Set(i, TUpdate(trie[i], trie[j]), abs[i] \cup abs[j], <<"Update", i, j>>, NoOut)
+DiffUpdate(i, j) == Set(i, TDiff(trie[i], trie[j]), abs[i] \ abs[j], <<"DiffUpdate", i, j>>, NoOut)
+InterUpdate(i, j) == Set(i, TInter(trie[i], trie[j]), abs[i] \cap abs[j], <<"InterUpdate", i, j>>, NoOut)
+Union(i, j, k) == Set(k, TUpdate(trie[i], trie[j]), abs[i] \cup abs[j], <<"Union", i, j, k>>, NoOut)
+Plus(i, j, k) == Set(k, TUpdate(trie[i], trie[j]), abs[i] \cup abs[j], <<"Plus", i, j, k>>, NoOut)
+Difference(i, j, k) == Set(k, TDiff(trie[i], trie[j]), abs[i] \ abs[j], <<"Difference", i, j, k>>, NoOut)
+Intersection(i, j, k) == Set(k, TInter(trie[i], trie[j]), abs[i] \cap abs[j], <<"Intersection", i, j, k>>, NoOut)
+Copy(i, k) == Set(k, trie[i], abs[i], <<"Copy", i, k>>, NoOut)
+Rebase(i, r) == Fits(abs[i], r) /\ Set(i, TRebase(trie[i], r), SRebase(abs[i], r), <<"Rebase", i, r>>, NoOut)
+KeyPathPlus(r, i, k) == Fits(abs[i], r) /\ Set(k, TRebase(trie[i], r), SRebase(abs[i], r), <<"KeyPathPlus", r, i, k>>, NoOut)
+Clear(i) == Set(i, EmptyT, {}, <<"Clear", i>>, NoOut)
 \* read-only: subtree(r) reported as none / the set of relative paths
 Subtree(i, r) == /\ UNCHANGED <<trie, abs>> /\ act' = <<"Subtree", i, r>>
-                 /\ out' = SSubtree(abs[i], r)
+                 /\ out' = [b |-> 0, none |-> SSubtree(abs[i], r).none, s |-> SSubtree(abs[i], r).s]
                  /\ Assert(~Mirror => TSubtree(trie[i], r) = SSubtree(abs[i], r), <<"subtree", trie[i], r>>)
 
 Init == /\ trie = [i \in Regs |-> EmptyT] /\ abs = [i \in Regs |-> {}]
-        /\ act = <<"Init">> /\ out = 0
+        /\ act = <<"Init">> /\ out = NoOut
 Next ==
   \/ "add" \in Ops /\ \E i \in Regs : \E p \in Pick(PU) : Add(i, p)
   \/ "remove" \in Ops /\ \E i \in Regs : \E p \in Pick(PU) : Remove(i, p)
